@@ -173,6 +173,34 @@ def blen(v):
     raise Unsupported(f'length of {v!r}')
 
 
+class ChunkSeq:
+    """The present values of a map's entries as a list, in index order ('asc'|'desc'), each chunk optionally reversed:
+       [M[i] for i in sorted(M)] and friends.  Flattening it gives a Combined."""
+    def __init__(self, snapshot, order='asc', each_rev=False):
+        self.snapshot = snapshot
+        self.order = order
+        self.each_rev = each_rev
+
+    def __repr__(self):
+        return f'ChunkSeq({self.order}, each_rev={self.each_rev})'
+
+    def sym_getitem(self, ex, k):
+        if isinstance(k, slice) and k.start is None and k.stop is None and k.step == -1:
+            return ChunkSeq(self.snapshot, 'desc' if self.order == 'asc' else 'asc', self.each_rev)
+        raise Unsupported(f'subscript {k!r} on a chunk sequence')
+
+    def flatten(self, each_rev_more=False, as_list=True):
+        return Combined(self.snapshot, self.order, self.each_rev != each_rev_more, None, as_list=as_list)
+
+    def sym_len(self, ex):
+        n = 0
+        for _, v in self.snapshot:
+            for g, x in alts(v):
+                if x is not ABSENT:
+                    n = n + ite(mk_bool(g), 1, 0)
+        return n
+
+
 class Combined:
     """Concatenation of the present values of a map's entries in index order.
        order 'asc'|'desc'; each_rev: every chunk reversed; start: optional symbolic cut (bytes dropped at the front)."""
